@@ -458,6 +458,55 @@ func wireMutate(r *wireRun, rounds int) {
 		}
 		b.emit(r.tr)
 	}
+	// (b1) data packages behind every possible predecessor: the server decides what precedes a ROW / PARAMS
+	// (a format of the other family, a data package, a DONE, nothing at all)
+	bl := &mutBatch{level: "channel", kind: "lastpkg"}
+	{
+		mkFmt := func(tok int, wide, row bool) tds.Package {
+			cols := []fcol{{Dt: 0x38, Name: []int{'a'}, Locale: []int{}, MaxLen: 4, Label: []int{}, Catalogue: []int{}, Schema: []int{}, Table: []int{}, TableName: []int{}}}
+			hb := encFcols(tok, cols, wide, row)
+			p, _ := tds.LookupPackage(tds.Token(tok))
+			if st, _ := readPkg(p, hb[1:]); st != "ok" {
+				return nil
+			}
+			return p
+		}
+		preds := map[string]func() tds.Package{
+			"nil":       func() tds.Package { return nil },
+			"paramfmt":  func() tds.Package { return mkFmt(tokParamFmt, false, false) },
+			"paramfmt2": func() tds.Package { return mkFmt(tokParamFmt2, true, false) },
+			"rowfmt":    func() tds.Package { return mkFmt(tokRowFmt, false, true) },
+			"rowfmt2":   func() tds.Package { return mkFmt(tokRowFmt2, true, true) },
+			"done":      func() tds.Package { return &tds.DonePackage{} },
+			"msg":       func() tds.Package { p, _ := tds.LookupPackage(tds.TDS_MSG); return p },
+		}
+		val := []byte{1, 0, 0, 0}
+		for _, dtok := range []int{tokRow, tokParams} {
+			for name, mk := range preds {
+				for _, chain := range []int{0, 1, 2} { // the data package itself repeated behind the predecessor
+					dtok, mk, chain := dtok, mk, chain
+					bl.run([]byte(fmt.Sprintf("%x-%s-%d", dtok, name, chain)), func() string {
+						var last tds.Package = mk()
+						st := "err"
+						for i := 0; i <= chain; i++ {
+							p, _ := tds.LookupPackage(tds.Token(dtok))
+							if err := p.(tds.LastPkgAcceptor).LastPkg(last); err != nil {
+								return "err"
+							}
+							st, _ = readPkg(p, val)
+							if st != "ok" {
+								return st
+							}
+							_ = p.String()
+							last = p
+						}
+						return st
+					})
+				}
+			}
+		}
+	}
+	bl.emit(r.tr)
 	// (b2) an environment change with a hostile packet size, then the client sends: the value a server
 	// announces must not make a later send panic or hang
 	be := &mutBatch{level: "channel", kind: "packsize-then-send"}
